@@ -209,13 +209,15 @@ Section ReachLemmas.
     inversion Hv; subst n' d. cbn [n_c]. eexists. eexists. exact E1.
   Qed.
 
+  (* a refused tick leaves the chain state alone (the pool may have been re-ordered when the
+     refusal comes from AddBlock: a tick not after the tip) *)
   Lemma step_validate_cases (n : node) (ts : Z) (perm : list nat) :
-    step n (OpValidate ts perm) = n \/
+    n_c (step n (OpValidate ts perm)) = n_c n \/
     exists d, validate n ts perm = (step n (OpValidate ts perm), Produced d).
   Proof.
     cbn [Reach.step]. destruct (validate n ts perm) as [n' o] eqn:Ev. cbn [fst].
     destruct o as [d|e]; [right; exists d; reflexivity|left].
-    apply validate_refused_same in Ev. apply Ev.
+    apply validate_refused_unchanged in Ev. apply Ev.
   Qed.
 
   Lemma step_add_state (n : node) (t : tx) : n_c (step n (OpAdd t)) = n_c n.
@@ -282,9 +284,9 @@ Section ReachLemmas.
     op_ok S n o -> node_denotes n -> node_denotes (step n o).
   Proof.
     intros Hok Hd. destruct o as [ts perm|t|now nbs pref|poh order].
-    - destruct (step_validate_cases n ts perm) as [E|[d Ev]]; [rewrite E; exact Hd|].
+    - destruct (step_validate_cases n ts perm) as [E|[d Ev]]; [unfold node_denotes; rewrite E; exact Hd|].
       destruct (validate_produced_add _ _ _ _ _ Ev) as [(l & addrs & Ea) _].
-      unfold add_block in Ea. apply (add_block_raw_denotes _ _ _ Hd Ea).
+      apply add_block_ok_raw in Ea. apply (add_block_raw_denotes _ _ _ Hd Ea).
     - unfold node_denotes. rewrite step_add_state. exact Hd.
     - cbn [Reach.step]. unfold node_denotes. cbn [n_c].
       destruct (update (n_c n) now nbs pref) as [st' rep] eqn:Eu. cbn [fst].
@@ -758,24 +760,29 @@ Section ReachLemmas.
 
   Lemma produced_rules (n : node) (ts : Z) (perm : list nat) (n' : node) (d : list (string * drop))
         (p : block) :
-    (0 < s_fee S)%N -> (0 <= s_interval S)%Z ->
+    (0 < s_fee S)%N ->
     validate n ts perm = (n', Produced d) ->
     op_ok S n (OpValidate ts perm) ->
     last_block (chain (n_c n)) = Some p -> b_ts p <> 0%Z ->
     exists b, chain (n_c n') = chain (n_c n) ++ [b] /\
               b_prev b = H p /\ b_ts b = (b_ts p + s_interval S)%Z /\ one_reward b /\ in_window p b.
   Proof.
-    intros Hfee Hint Hv Hok Hlast Hnz.
+    intros Hfee Hv Hok Hlast Hnz.
     assert (Hlts : last_block_ts (chain (n_c n)) = b_ts p)
       by (unfold last_block_ts; rewrite Hlast; reflexivity).
     destruct (validate_produced_add _ _ _ _ _ Hv) as [_ Htick]. rewrite Hlts in Htick.
+    (* AddBlock has accepted the block: it is dated after the tip *)
+    assert (Hafter : (b_ts p < ts)%Z).
+    { rewrite <- Hlts. apply (validate_produced_after_tip _ _ _ _ _ _ _ _ _ _ _ _ Hv).
+      intros E. rewrite E in Hlast. discriminate. }
     assert (Hts : ts = (b_ts p + s_interval S)%Z).
     { destruct Htick as [E|[Hne Hle]]; [contradiction|].
       cbn [op_ok] in Hok. destruct Hok as [E|(k & Hk & Ek)].
       - rewrite E in Hlast. discriminate.
       - rewrite Hlts in Ek.
         assert (Hk' : k = 0%Z \/ (1 <= k)%Z) by lia.
-        destruct Hk' as [Hk'|Hk']; [subst k; lia|]. nia. }
+        destruct Hk' as [Hk'|Hk']; [subst k; lia|].
+        assert (Hint : (0 < s_interval S)%Z) by nia. nia. }
     apply validate_produced in Hv. cbv zeta in Hv.
     destruct Hv as (kept & reward & u0 & _ & Hk & _ & _ & Hc & _ & _ & Htxs & Hrt & _ & _ & Hone).
     match type of Hc with _ = _ ++ [?b] => set (blk := b) in * end.
@@ -798,11 +805,11 @@ Section ReachLemmas.
   Definition tip_nonzero (c : list block) : Prop := c = [] \/ last_block_ts c <> 0%Z.
 
   Theorem step_chain_ok (n : node) (o : op) :
-    (0 < s_fee S)%N -> (0 <= s_interval S)%Z -> (forall a b, H a = H b -> a = b) ->
+    (0 < s_fee S)%N -> (forall a b, H a = H b -> a = b) ->
     chain_ok H S (chain (n_c n)) -> tip_nonzero (chain (n_c n)) -> op_ok S n o ->
     chain_ok H S (chain (n_c (step n o))).
   Proof.
-    intros Hfee Hint Hinj Hc Hnz Hok. destruct o as [ts perm|t|now nbs pref|poh order].
+    intros Hfee Hinj Hc Hnz Hok. destruct o as [ts perm|t|now nbs pref|poh order].
     - destruct (step_validate_cases n ts perm) as [E|[d Ev]]; [rewrite E; exact Hc|].
       destruct (chain (n_c n)) as [|g l] eqn:Ec.
       + destruct (validate_appends _ _ _ _ _ _ _ _ _ _ _ _ Ev) as (b & Hc' & _).
@@ -812,7 +819,7 @@ Section ReachLemmas.
         assert (Hz : b_ts (lastb g l) <> 0%Z).
         { destruct Hnz as [E|Hz]; [discriminate|]. unfold last_block_ts in Hz.
           rewrite last_block_lastb in Hz. exact Hz. }
-        destruct (produced_rules _ _ _ _ _ _ Hfee Hint Ev Hok Hlast Hz) as (b & Hc' & Hl & Ht & Hr & Hw).
+        destruct (produced_rules _ _ _ _ _ _ Hfee Ev Hok Hlast Hz) as (b & Hc' & Hl & Ht & Hr & Hw).
         rewrite Hc', Ec. cbn [app chain_ok] in Hc |- *. apply chain_rules_app.
         split; [exact Hc|]. cbn [chain_rules]. repeat split; assumption.
     - rewrite step_add_state. exact Hc.
@@ -881,16 +888,44 @@ Section ReachLemmas.
     - exact Hp.
   Qed.
 
+  (* with a negative interval a chain never grows beyond its first block: Validate lets a tick
+     through only if it is not after the tip's tick plus the interval, AddBlock only if it is
+     after the tip; and no neighbor's answer passes verify (its closing AddBlock) *)
+  Lemma step_neg_interval_short (n : node) (o : op) :
+    (s_interval S < 0)%Z -> chain_pos (chain (n_c n)) ->
+    length (chain (n_c n)) <= 1 -> length (chain (n_c (step n o))) <= 1.
+  Proof.
+    intros Hint Hp Hlen. destruct o as [ts perm|t|now nbs pref|poh order].
+    - destruct (step_validate_cases n ts perm) as [E|[d Ev]]; [rewrite E; exact Hlen|].
+      destruct (validate_appends _ _ _ _ _ _ _ _ _ _ _ _ Ev) as (b & Hc' & _).
+      rewrite Hc'. destruct (chain (n_c n)) as [|g l] eqn:Ec; [simpl; lia|exfalso].
+      assert (Hne : chain (n_c n) <> []) by (rewrite Ec; discriminate).
+      pose proof (validate_produced_after_tip _ _ _ _ _ _ _ _ _ _ _ _ Ev Hne) as Hafter.
+      destruct (validate_produced_add _ _ _ _ _ Ev) as [_ [Hz|[_ Hle]]]; [|lia].
+      destruct l as [|x l']; [|simpl in Hlen; lia].
+      rewrite Ec in Hz. unfold last_block_ts, last_block in Hz. simpl in Hz, Hp. lia.
+    - rewrite step_add_state. exact Hlen.
+    - cbn [Reach.step n_c]. rewrite update_nonpos_interval_kept by lia. exact Hlen.
+    - exact Hlen.
+  Qed.
+
   Theorem reach_pos_chain_ok (n : node) :
-    (0 < s_fee S)%N -> (0 <= s_interval S)%Z -> (forall a b, H a = H b -> a = b) ->
+    (0 < s_fee S)%N -> (forall a b, H a = H b -> a = b) ->
     reach_pos n -> chain_ok H S (chain (n_c n)).
   Proof.
-    intros Hfee Hint Hinj Hr.
-    assert (Hboth : chain_ok H S (chain (n_c n)) /\ chain_pos (chain (n_c n))).
-    { induction Hr as [|n o Hr [IHc IHp] Hok Hpos]; [split; exact I|]. split.
-      - apply step_chain_ok; try assumption. apply chain_pos_tip_nonzero; assumption.
-      - apply step_chain_pos; assumption. }
-    apply Hboth.
+    intros Hfee Hinj Hr.
+    destruct (Z.le_gt_cases 0 (s_interval S)) as [Hint|Hint].
+    - assert (Hboth : chain_ok H S (chain (n_c n)) /\ chain_pos (chain (n_c n))).
+      { induction Hr as [|n o Hr [IHc IHp] Hok Hpos]; [split; exact I|]. split.
+        - apply step_chain_ok; try assumption. apply chain_pos_tip_nonzero; assumption.
+        - apply step_chain_pos; assumption. }
+      apply Hboth.
+    - assert (Hboth : length (chain (n_c n)) <= 1 /\ chain_pos (chain (n_c n))).
+      { induction Hr as [|n o Hr [IHl IHp] Hok Hpos]; [split; [simpl; lia | exact I]|]. split.
+        - apply step_neg_interval_short; assumption.
+        - apply step_chain_pos; assumption. }
+      destruct Hboth as [Hlen _].
+      destruct (chain (n_c n)) as [|g [|x l]]; [exact I | exact I | simpl in Hlen; lia].
   Qed.
 
   (* the same over [reach], given that no state of the history had a tip dated 0 *)
@@ -899,10 +934,10 @@ Section ReachLemmas.
   | reach_nz_step n o : reach_nz n -> tip_nonzero (chain (n_c n)) -> op_ok S n o -> reach_nz (step n o).
 
   Theorem reach_nz_chain_ok (n : node) :
-    (0 < s_fee S)%N -> (0 <= s_interval S)%Z -> (forall a b, H a = H b -> a = b) ->
+    (0 < s_fee S)%N -> (forall a b, H a = H b -> a = b) ->
     reach_nz n -> chain_ok H S (chain (n_c n)).
   Proof.
-    intros Hfee Hint Hinj Hr.
+    intros Hfee Hinj Hr.
     induction Hr as [|n o Hr IH Hnz Hok]; [exact I | apply step_chain_ok; assumption].
   Qed.
 
@@ -1121,28 +1156,22 @@ Module ReachExample.
     split; [apply z2_reach | apply z2_not_ok].
   Qed.
 
-  (* a negative interval: the tick two intervals "after" the tip is not refused *)
+  (* a negative interval: the tick two intervals "after" the tip passes the two tick tests of
+     Validate (it is neither the tip's tick nor later than the next one) and is refused by
+     AddBlock, being dated before the tip: the chain keeps its single block *)
   Definition Sneg : settings := mkSettings (-10) 1 100 8.
+  Definition m1 (Hx : block -> hash) : node :=
+    step vf ao so Hx gid Sneg "V"%string node_empty (OpValidate 100 []).
   Definition m2 (Hx : block -> hash) : node :=
-    step vf ao so Hx gid Sneg "V"%string
-         (step vf ao so Hx gid Sneg "V"%string node_empty (OpValidate 100 [])) (OpValidate 80 []).
+    step vf ao so Hx gid Sneg "V"%string (m1 Hx) (OpValidate 80 []).
 
-  Theorem chain_ok_neg_interval_refuted :
-    exists (value_fn : N -> bool -> Z -> N) (addr_of : string -> string) (sig_ok : input -> bool)
-           (H : block -> hash) (gen_id : slice input -> slice output -> Z -> string)
-           (St : settings) (validator : string) (n : node),
-      (0 < s_fee St)%N /\ (forall a b, H a = H b -> a = b) /\
-      reach_pos value_fn addr_of sig_ok H gen_id St validator n /\
-      ~ chain_ok H St (chain (n_c n)).
+  Lemma neg_interval_tick_refused :
+    op_ok Sneg (m1 Hinj) (OpValidate 80 []) /\
+    snd (validate vf ao so Hinj gid Sneg "V"%string (m1 Hinj) 80 []) = Refused ETime /\
+    map b_ts (chain (n_c (m2 Hinj))) = [100%Z].
   Proof.
-    exists vf, ao, so, Hinj, gid, Sneg, "V"%string, (m2 Hinj).
-    split; [reflexivity|]. split; [exact Hinj_inj|]. split.
-    - apply reach_pos_step; [apply reach_pos_step; [apply reach_pos_init| |]| |].
-      + left. reflexivity.
-      + intros _. reflexivity.
-      + right. exists 2%Z. split; [lia|]. vm_compute. reflexivity.
-      + intros E. vm_compute in E. discriminate E.
-    - intros Hc. vm_compute in Hc. destruct Hc as (_ & Ht & _). discriminate Ht.
+    split; [right; exists 2%Z; split; [lia|]; vm_compute; reflexivity|].
+    vm_compute. split; reflexivity.
   Qed.
 
   (* a neighbor on another branch (three blocks by validator "W"): the two-block node adopts its
